@@ -729,6 +729,8 @@ def digit_size_agreement_rule(ctx, R):
 
 
 MUTANTS = [
+    ('check-size-f64-refused', 'miasmx/arch/ia32_arch.py', '            if   modifs[sd] == False  and size in [x86_afs.u64,x86_afs.f64]:', '            if   modifs[sd] == False  and size in [x86_afs.u64]:', 'C03.D14'),
+
     ('mandatory-prefix-in-front', 'miasmx/arch/ia32_arch.py', "            if len(p) == 1 and p[0] > 0:\n                prefix.append(mmx_prefixes[p[0]])", "            if len(p) == 1 and p[0] > 0:\n                prefix.insert(0, mmx_prefixes[p[0]])", 'C03.D13'),
     ('sse-cmp-pseudo-op-revived', 'miasmx/arch/ia32_arch.py', "'cmpsd', 'cmpss'] and len(args)==2 \\\n", "'cmpsd', 'cmpss'] and len(args)==3 \\\n", 'C03.D12'),
     ('fcom-in-float-arith', 'miasmx/arch/ia32_arch.py', "float_arith =    ['fadd','fsub','fmul','fdiv','fsubr','fdivr']", "float_arith =    ['fadd','fsub','fmul','fdiv','fsubr','fdivr','fcom']", 'C03.D8'),
